@@ -6,7 +6,9 @@
     exactly the scoped free variables `fvStmt` on statements with unique binders;
   * `lift_spec`: the definition pushed by `lift` has as parameters the typed free variables of the
     lifted statement (same order, names, chiralities, types; fresh pairwise distinct ids), its body is
-    the image of the renamed statement, and the call passes the free variables in the same order.
+    the image of the renamed statement, and the call passes the free variables in the same order;
+    the label is the first candidate `lift_<current>__k` (k after the parameter ids) whose printed
+    form is not the printed form of a used label.
 -/
 import Scc.Core2AxCut.Proofs
 import Scc.Core2AxCut.FreeVarsSpec
@@ -581,22 +583,30 @@ theorem shrinkContext_liftParams (codata : List Core.TypeDecl) : ∀ (m : Nat) (
     simp only [shrinkBinding]
     split <;> split <;> simp
 
-/-- the local specification of `lift` -/
+/-- the local specification of `lift`.  The label is `lift_<current>__k` for the first
+    `k > max_id + |fv|` whose printed form is not the printed form of a used label (`k` is
+    `max_id + |fv| + 1` unless a top-level name collides); it is inserted into `used_labels`
+    before the body is translated. -/
 theorem lift_spec (env : Env) (rec : Rec) (s : Core.FsStmt) (st : St) (r : AxCut.Stmt) (st' : St)
     (h : lift env rec s st = .ok (r, st')) :
     let fv := tfvStmt s []
-    let label : AxCut.Ident := ⟨"lift_" ++ env.currentLabel ++ "_", st.maxId + fv.length + 1⟩
-    ∃ body st3,
-      rec (substStmt (liftSubst st.maxId fv) s) ⟨st.maxId + fv.length + 1, st.lifted⟩ = .ok (body, st3) ∧
-      r = .call label (shrinkContext env.codata fv) ∧
+    let base := "lift_" ++ env.currentLabel ++ "_"
+    ∃ (k : Nat) (body : AxCut.Stmt) (st3 : St),
+      st.maxId + fv.length < k ∧
+      (∀ u ∈ st.usedLabels, u.print ≠ (⟨base, k⟩ : Core.Ident).print) ∧
+      (∀ j, st.maxId + fv.length < j → j < k → labelUsed st.usedLabels ⟨base, j⟩ = true) ∧
+      rec (substStmt (liftSubst st.maxId fv) s) ⟨k, ⟨base, k⟩ :: st.usedLabels, st.lifted⟩ = .ok (body, st3) ∧
+      r = .call ⟨base, k⟩ (shrinkContext env.codata fv) ∧
       st' = { st3 with lifted :=
-        ⟨label, shrinkContext env.codata (liftParams st.maxId fv), body⟩ :: st3.lifted } := by
-  simp only [lift, liftFresh_spec, freshIdentifier] at h
-  split at h
-  · cases h
-  · rename_i body st3 hb
-    simp at h
-    obtain ⟨rfl, rfl⟩ := h
-    exact ⟨body, st3, hb, rfl, rfl⟩
+        ⟨⟨base, k⟩, shrinkContext env.codata (liftParams st.maxId fv), body⟩ :: st3.lifted } := by
+  obtain ⟨label, st2, st3, body, hn, hlt, hu, hmin, hu2, hl2, hm2, hb, hr, hst⟩ := lift_label h
+  simp only [liftFresh_spec] at hlt hmin hb hst
+  obtain ⟨name, k⟩ := label
+  simp only at hn hm2 hlt
+  subst hn
+  have e2 : st2 = ⟨k, ⟨"lift_" ++ env.currentLabel ++ "_", k⟩ :: st.usedLabels, st.lifted⟩ := by
+    cases st2; simp_all
+  rw [e2] at hb
+  exact ⟨k, body, st3, hlt, hu, hmin, hb, hr, hst⟩
 
 end Scc.Core2AxCut
